@@ -115,10 +115,20 @@ verus_unit(
             (r"self\.bulk\.read\(\)\?", "self.bulk.read().be()?", 1),
             (r"word\.into\(\)", "word.w2s()", 1),
         ]),
+        "FROM_BINARY": dict(file="src/stream/stack.rs", anchor="impl<Word, State, Backend> AnsCoder<Word, State, Backend>", fn="from_binary", extra=[
+            # ghost-only: loop contract inserted between the (untouched) loop condition and the body
+            (r"while ([^{]*?)\{",
+             r"while \1" "\n            invariant STATE_BITS >= 2 * WORD_BITS, (1 as State) << (STATE_BITS - WORD_BITS) == @TH@, state >= 1, bigv(data@, state) == bigv(data0, 1), data@.len() <= data0.len(), data@ == data0.subrange(0, data@.len() as int),\n"
+             "            ensures state >= @TH@ || data@.len() == 0,\n            decreases data@.len()\n        {\n            proof { lemma_th_io(); if data@.len() > 0 { lemma_from_binary_step(data@, state); assert(data@.drop_last() =~= data0.subrange(0, data@.len() - 1)); } }", 1),
+            (r"word\.into\(\)", "word.w2s()", 1),
+            (r"Ok\(Self \{\s*bulk: data,\s*state,\s*phantom: PhantomData,\s*\}\)", "Ok(AnsCoder { bulk: data, state })", 1),
+        ]),
         "APOS": dict(file="src/stream/stack.rs", anchor="Pos for AnsCoder<Word, State, Backend>", fn="pos", extra=[]),
         "ASEEK": dict(file="src/stream/stack.rs", anchor="Seek for AnsCoder<Word, State, Backend>", fn="seek", extra=[]),
     },
     obligations={
+        "from_binary": dict(own=["C04", "C01"], dep=["C18", "C12"], kani_twin="ans_io::u8_u32::binary_roundtrip",
+                            text="ensures (data of ANY length, all widths): the coder denotes exactly marker ++ data (state * W^|bulk| + le(bulk) == W^|data| + le(data)); head >= 2^(SB-WB) unless the bulk is empty; remaining bulk is a prefix of the data"),
         "pos": dict(own=["C07"], dep=[], text="ensures: (number of words on the stack, head state)"),
         "seek": dict(own=["C07"], dep=[], text="ensures: Err iff pos > len; else the coder's view is (first pos words, given state)"),
         "thm_seek_restores_snapshot": dict(own=["C07"], dep=[], text="encoding only pushes, so a snapshot's words stay a prefix of the finished data and seek restores the snapshot's view exactly"),
